@@ -479,44 +479,87 @@ pub fn c08_case(c: &Case, r: &mut Rng, nperturb: usize, max_limit: u32) -> CaseO
         vectors.push((v.clone(), true));
     }
     let base = est.clone().filter(|v| v[4] != 0).unwrap_or_else(default_vec);
+    // every single-flag flip of the base vector (zlib_compatible, very_far_matches_detected,
+    // matches_to_start_detected), then random multi-field perturbations
+    for flag in [2usize, 9, 10] {
+        let mut v = base.clone();
+        v[flag] ^= 1;
+        if v[18] != 0 && v[2] != 0 && v[14] < 4 {
+            v[14] = 4;
+        }
+        vectors.push((v, false));
+    }
     for _ in 0..nperturb {
         vectors.push((perturb(r, &base, max_limit), false));
     }
     for (v, is_est) in vectors {
         let replay = format!("params {} {}", vec_str(&v), hex(d));
-        match guarded(|| vh::roundtrip_with_params(d, &v)) {
+        match guarded(|| vh::analyze_with_params(d, &v)) {
             Run::Panic(p) => {
                 out.failures.push(Failure {
                     kind: "oracle".into(),
                     signature: format!("panic {}", panic_signature(&p)),
-                    detail: format!("roundtrip_with_params panicked: {p} params={v:?} [{label}]"),
+                    detail: format!("analysis under chosen parameters panicked: {p} params={v:?} [{label}]"),
                     replay,
                 });
             }
             Run::Done(Err(_)) => {
                 out.tags.push(if is_est { "est-err".into() } else { "perturbed-err".into() });
             }
-            Run::Done(Ok(rt)) => {
+            Run::Done(Ok(a)) => {
                 out.tags.push(if is_est { "est-ok".into() } else { "perturbed-ok".into() });
                 out.nontrivial = Some(fnv64(d) ^ fnv64(vec_str(&v).as_bytes()));
-                if rt.consumed > d.len() || rt.reconstructed[..] != d[..rt.consumed] {
-                    out.failures.push(Failure {
+                // corrections exist: reconstruction from them must succeed and be exact
+                match guarded(|| recompress_deflate_stream(&a.plain_text, &a.corrections)) {
+                    Run::Panic(p) => out.failures.push(Failure {
                         kind: "oracle".into(),
-                        signature: "reconstruction-differs".into(),
-                        detail: format!("reconstruction under params {v:?} differs from the original stream [{label}]"),
+                        signature: format!("reconstruction-panic {}", panic_signature(&p)),
+                        detail: format!("corrections were produced under params {v:?} but reconstruction panicked: {p} [{label}]"),
                         replay: replay.clone(),
-                    });
-                }
-                if rt.reread != v {
-                    out.failures.push(Failure {
+                    }),
+                    Run::Done(Err(e)) => out.failures.push(Failure {
                         kind: "oracle".into(),
-                        signature: "params-reread-differ".into(),
-                        detail: format!("written {v:?} re-read {:?} [{label}]", rt.reread),
+                        signature: "reconstruction-err".into(),
+                        detail: format!("corrections ({} bytes) were produced under params {v:?} but reconstruction returned Err({:?}) [{label}]", a.corrections.len(), e.exit_code()),
+                        replay: replay.clone(),
+                    }),
+                    Run::Done(Ok(y)) => {
+                        if a.compressed_size > d.len() || y[..] != d[..a.compressed_size] {
+                            out.failures.push(Failure {
+                                kind: "oracle".into(),
+                                signature: "reconstruction-differs".into(),
+                                detail: format!("reconstruction under params {v:?} differs from the original stream [{label}]"),
+                                replay: replay.clone(),
+                            });
+                        }
+                    }
+                }
+                match guarded(|| vh::params_roundtrip(&v)) {
+                    Run::Done(Ok((_, reread))) => {
+                        if reread != v {
+                            out.failures.push(Failure {
+                                kind: "oracle".into(),
+                                signature: "params-reread-differ".into(),
+                                detail: format!("written {v:?} re-read {reread:?} [{label}]"),
+                                replay,
+                            });
+                        }
+                    }
+                    Run::Done(Err(e)) => out.failures.push(Failure {
+                        kind: "oracle".into(),
+                        signature: "params-reread-err".into(),
+                        detail: format!("parameter header of {v:?} could not be read back: {e} [{label}]"),
                         replay,
-                    });
+                    }),
+                    Run::Panic(p) => out.failures.push(Failure {
+                        kind: "oracle".into(),
+                        signature: format!("params-panic {}", panic_signature(&p)),
+                        detail: format!("parameter header round trip panicked: {p} [{label}]"),
+                        replay,
+                    }),
                 }
                 if out.sample.is_none() {
-                    out.sample = Some(format!("{label}: params={v:?} corr={} bytes", rt.correction_size));
+                    out.sample = Some(format!("{label}: params={v:?} corr={} bytes", a.corrections.len()));
                 }
             }
         }
